@@ -119,6 +119,9 @@ structure R where
   finished : Bool := false
   /-- `read_info(self)` failed: the `Decoder` is gone and no `Reader` exists -/
   dead : Bool := false
+  /-- the caller's frame buffer when the previous call was a `next_frame` that ran out of input: a caller that
+      retries passes the same buffer again -/
+  pendingBuf : Option Bytes := none
 
 def ofFraming (e : Framing.Err) : Res :=
   match e with
@@ -365,56 +368,62 @@ def nextInterlacedRow (cfg : Cfg) (t : TCfg) (r : R) : R × Res :=
 def setSlice (buf : Bytes) (at_ : Nat) (v : Bytes) : Bytes := buf.take at_ ++ v ++ buf.drop (at_ + v.length)
 
 /-- rows `done..height` of a non-interlaced frame written at their final offsets (mod.rs:431-442) -/
-def frameRows (cfg : Cfg) (t : TCfg) (lineSize : Nat) : Nat → Nat → R → Bytes → R × Except Res Bytes
-  | 0, _, r, buf => (r, .ok buf)
+def frameRows (cfg : Cfg) (t : TCfg) (lineSize : Nat) : Nat → Nat → R → Bytes → R × Bytes × Option Res
+  | 0, _, r, buf => (r, buf, none)
   | n+1, k, r, buf =>
     -- `chunks_exact_mut(line_size)`: with `line_size = 0` it panics; a short buffer yields fewer chunks
-    if (k + 1) * lineSize > buf.length then (r, .ok buf) else
+    if (k + 1) * lineSize > buf.length then (r, buf, none) else
     match nextRowImpl cfg t r r.sub.rowlen lineSize with
-    | (r', .error e) => (r', .error e)
+    | (r', .error e) => (r', buf, some e)
     | (r', .ok out) => frameRows cfg t lineSize n (k + 1) r' (setSlice buf (k * lineSize) out)
 
 /-- interlaced frame: `next_interlaced_row` + `expand_pass` until `None` (mod.rs:413-427) -/
-def frameInterlaced (cfg : Cfg) (t : TCfg) (stride bitsPP : Nat) : Nat → R → Bytes → R × Except Res Bytes
-  | 0, r, _ => (r, .error (.panic "fuel"))
+def frameInterlaced (cfg : Cfg) (t : TCfg) (stride bitsPP : Nat) : Nat → R → Bytes → R × Bytes × Option Res
+  | 0, r, buf => (r, buf, some (.panic "fuel"))
   | fuel+1, r, buf =>
     match nextInterlacedRow cfg t r with
-    | (r', .noRow) => (r', .ok buf)
+    | (r', .noRow) => (r', buf, none)
     | (r', .row (.adam7 p l w) data) =>
       match Adam7.expandPass buf stride data { pass := p, line := l, width := w } bitsPP with
-      | none => (r', .error (.panic "expand_pass: index out of range (adam7.rs:223-231)"))
+      | none => (r', buf, some (.panic "expand_pass: index out of range (adam7.rs:223-231)"))
       | some buf' => frameInterlaced cfg t stride bitsPP fuel r' buf'
-    | (r', .row (.null _) _) => (r', .error (.panic "get_adam7_info().unwrap() (mod.rs:424)"))
-    | (r', e) => (r', .error e)
+    | (r', .row (.null _) _) => (r', buf, some (.panic "get_adam7_info().unwrap() (mod.rs:424)"))
+    | (r', e) => (r', buf, some e)
 
-/-- `next_frame` (mod.rs:384-449) into a caller buffer with contents `buf` -/
-def nextFrame (cfg : Cfg) (t : TCfg) (r : R) (buf : Bytes) : R × Res :=
-  if r.remaining = 0 then (r, .err .parameter "PolledAfterEndOfImage") else
+/-- `next_frame` (mod.rs:384-449) into a caller buffer with contents `buf`; also returns the buffer afterwards
+    (partially written when the call fails) -/
+def nextFrameBuf (cfg : Cfg) (t : TCfg) (r : R) (buf : Bytes) : R × Res × Bytes :=
+  let fail (r : R) (e : Res) : R × Res × Bytes := (r, e, buf)
+  if r.remaining = 0 then fail r (.err .parameter "PolledAfterEndOfImage") else
   let adv : R × Except Res Unit := if r.sub.caf then readUntilImageData cfg t r else (r, .ok ())
   match adv with
-  | (r1, .error e) => (r1, e)
+  | (r1, .error e) => fail r1 e
   | (r1, .ok ()) =>
     match infoOf r1 with
-    | none => (r1, .panic "info().unwrap()")
+    | none => fail r1 (.panic "info().unwrap()")
     | some i =>
       let need := outLineSize t i r1.flags i.width * i.height
-      if buf.length < need then (r1, .err .parameter "ImageBufferSize") else
+      if buf.length < need then fail r1 (.err .parameter "ImageBufferSize") else
       let (c, d) := t.outColorDepth i r1.flags
       let oi : OutputInfo := { width := r1.sub.width, height := r1.sub.height, color := c, depth := d, lineSize := outLineSize t i r1.flags r1.sub.width }
-      let body : R × Except Res Bytes :=
+      let body : R × Bytes × Option Res :=
         if i.interlaced then
           let stride := oi.lineSize
           frameInterlaced cfg t stride (samplesOf c * d) (7 * r1.sub.height + 8) r1 buf
         else
           let done := match r1.sub.cur with | some ii => ii.line | none => r1.sub.height
-          if oi.lineSize = 0 then (r1, .error (.panic "chunks_exact_mut(0) (mod.rs:436)")) else
+          if oi.lineSize = 0 then (r1, buf, some (.panic "chunks_exact_mut(0) (mod.rs:436)")) else
           frameRows cfg t oi.lineSize (r1.sub.height - done) done r1 buf
       match body with
-      | (r2, .error e) => (r2, e)
-      | (r2, .ok buf') =>
+      | (r2, buf', some e) => (r2, e, buf')
+      | (r2, buf', none) =>
         match finishDecoding cfg r2 with
-        | (r3, .error e) => (r3, e)
-        | (r3, .ok ()) => (r3, .frame oi buf')
+        | (r3, .error e) => (r3, e, buf')
+        | (r3, .ok ()) => (r3, .frame oi buf', buf')
+
+def nextFrame (cfg : Cfg) (t : TCfg) (r : R) (buf : Bytes) : R × Res :=
+  let (r', res, _) := nextFrameBuf cfg t r buf
+  (r', res)
 
 /-- `next_frame_info` (mod.rs:331-353) -/
 def nextFrameInfo (cfg : Cfg) (t : TCfg) (r : R) : R × Res :=
@@ -474,15 +483,22 @@ def step (cfg : Cfg) (t : TCfg) (r : R) : Op → R × Res
       match infoOf r with
       | none => (r, .panic "info().unwrap()")
       | some i =>
-        -- the documented buffer size is queried before the call (it may change during the call: D5)
-        nextFrame cfg t r (List.replicate (outLineSize t i r.flags i.width * i.height) p)
-    | .nextRow => nextInterlacedRow cfg t r
+        -- the documented buffer size is queried before the call; a call retried after end-of-input gets the same buffer
+        let size := outLineSize t i r.flags i.width * i.height
+        let buf := match r.pendingBuf with
+          | some b => if b.length = size then b else List.replicate size p
+          | none => List.replicate size p
+        let (r', res, buf') := nextFrameBuf cfg t { r with pendingBuf := none } buf
+        match res with
+        | .err .eof _ => ({ r' with pendingBuf := some buf' }, res)
+        | _ => (r', res)
+    | .nextRow => nextInterlacedRow cfg t { r with pendingBuf := none }
     | .readRow =>
       match infoOf r with
       | none => (r, .panic "info().unwrap()")
-      | some i => readRow cfg t r (outLineSize t i r.flags i.width)
-    | .nextFrameInfo => nextFrameInfo cfg t r
-    | .finish => finish cfg r
+      | some i => readRow cfg t { r with pendingBuf := none } (outLineSize t i r.flags i.width)
+    | .nextFrameInfo => nextFrameInfo cfg t { r with pendingBuf := none }
+    | .finish => finish cfg { r with pendingBuf := none }
     | _ => (r, .done)
 
 def run (cfg : Cfg) (t : TCfg) (r : R) (ops : List Op) : R × List Res :=
